@@ -1740,10 +1740,12 @@ impl Visitor for Checker {
                         ));
                         return;
                     }
-                    // Narrowing two tuples yields the one with fewer fields.
-                    // The constraint vets the value, it does not take fields
-                    // away from it: the binding keeps every field it was given.
-                    if !matches!(shape, Shape::Tuple(_)) {
+                    // The constraint vets the value, it does not change it:
+                    // a tuple keeps every field it was given (narrowing two
+                    // tuples yields the one with fewer fields), a list its
+                    // element types, NULL stays NULL. Only a value we know
+                    // nothing about takes its shape from the constraint.
+                    if let Shape::Hole(_) = shape {
                         shape = narrowed;
                     }
                 }
